@@ -533,7 +533,9 @@ def updaterRx (h : Host) (p : Pkt) : Host × List Out × Pkt :=
   else (h, [], p)
 
 /-- the body of a reply handler (`new_packet_cb` of the four misc functions): what the caller's callback receives, or the
-exception that escapes.  The `Bool` says whether the handler ran to its end (one-shot variants unregister there). -/
+exception that escapes.  The `Bool` says whether the handler unregistered itself: on an exception it did not; on the early
+ENOENT return and at the normal end it did iff the source has `remove_port_callback` on that path (Gen: `...EnoentUnreg`,
+`...EndUnreg`). -/
 def handleMisc (e : Pending) (p : Pkt) : List Out × Bool :=
   let fmt := (typeFmt e.tcode).getD ""
   match e.kind with
@@ -541,33 +543,40 @@ def handleMisc (e : Pending) (p : Pkt) : List Out × Bool :=
     match p.data[3]?, e.rid with
     | none, _ => ([.cbError .indexError], false)
     | some b, some r =>
-      if b.toNat = Gen.C04.ENOENT then ([.misc r e.cn (.dflt none)], true)
+      if b.toNat = Gen.C04.ENOENT then ([.misc r e.cn (.dflt none)], Gen.C04.getDefaultEnoentUnreg)
       else if e.noElem then ([.cbError .attributeError], false)      -- `element.pytype` with `element` None
       else match unpack1 fmt (p.data.drop 3) with
-        | .ok v => ([.misc r e.cn (.dflt (some v))], true)
+        | .ok v => ([.misc r e.cn (.dflt (some v))], Gen.C04.getDefaultEndUnreg)
         | .error er => ([.cbError er], false)
     | some _, none => ([.cbError .typeError], false)
   | .getState =>
     match p.data[3]?, e.rid with
     | none, _ => ([.cbError .indexError], false)
     | some b, some r =>
-      if b.toNat = Gen.C04.ENOENT then ([.misc r e.cn (.state none)], true)
+      if b.toNat = Gen.C04.ENOENT then ([.misc r e.cn (.state none)], Gen.C04.getStateEnoentUnreg)
       else if b.toNat = 1 then
         match unpack (parseFmt! fmt ++ parseFmt! fmt) (p.data.drop 4) with
-        | .ok [d, s] => ([.misc r e.cn (.state (some (true, d, some s)))], true)
+        | .ok [d, s] => ([.misc r e.cn (.state (some (true, d, some s)))], Gen.C04.getStateEndUnreg)
         | .ok _ => ([.cbError .valueError], false)
         | .error er => ([.cbError er], false)
       else match unpack1 fmt (p.data.drop 4) with
-        | .ok d => ([.misc r e.cn (.state (some (false, d, none)))], true)
+        | .ok d => ([.misc r e.cn (.state (some (false, d, none)))], Gen.C04.getStateEndUnreg)
         | .error er => ([.cbError er], false)
     | some _, none => ([.cbError .typeError], false)
-  | .store | .clear =>
+  | .store =>
     match e.rid with
     | none => ([], true)
     | some r =>
       match p.data[3]? with
       | none => ([.cbError .indexError], false)
-      | some b => ([.misc r e.cn (.status (b.toNat = 0))], true)
+      | some b => ([.misc r e.cn (.status (b.toNat = 0))], Gen.C04.storeEndUnreg)
+  | .clear =>
+    match e.rid with
+    | none => ([], true)
+    | some r =>
+      match p.data[3]? with
+      | none => ([.cbError .indexError], false)
+      | some b => ([.misc r e.cn (.status (b.toNat = 0))], Gen.C04.clearEndUnreg)
 
 /-- repaired code, `Param._misc_reply_cb(pk)`: the oldest pending request with the reply's command and id gets it -/
 def miscRxFifo (h : Host) (p : Pkt) : Host × List Out :=
